@@ -1647,32 +1647,189 @@ Proof.
   vm_compute. discriminate.
 Qed.
 
-(* A quoted label that the lexer splits into several QuotedLit tokens ("a$b"
-   lexes as  a , $ , b ) is a well-formed label node of a loaded file, and is in
-   the serialisation, but blockLabels.Current() drops it, whatever the literal
-   decoder answers. *)
+(* Labels().  A quoted label is OQuote, literal tokens, CQuote; the scanner
+   splits a string around '$' and '%' ("a$b" lexes as  a , $ , b ).
+   blockLabels.Current joins the decoded literals (an earlier revision of
+   ast_block.go understood exactly one literal and dropped such labels: DESIGN
+   section 9 #3, fixed in the tree by "fix: Block.Labels must read quoted labels
+   that contain $ or %"; the former labels_reader_refuted is therefore gone). *)
 Definition split_label : list tok :=
   [ mkTok TokenOQuote [34] 1 1; mkTok TokenQuotedLit [97] 1 0; mkTok TokenQuotedLit [36] 1 0;
     mkTok TokenQuotedLit [98] 1 0; mkTok TokenCQuote [34] 1 0 ].
 
-Theorem labels_reader_refuted :
-  exists l,
-    WF_labels l /\ abs_labels l = [ALQuoted split_label] /\ quoted_ok split_label /\
-    forall unesc, labels_current unesc l = [].
+Theorem label_of_quoted unesc o mid c :
+  ty o = TokenOQuote -> ty c = TokenCQuote -> mid <> [] ->
+  label_of unesc (LQuoted (o :: mid ++ [c])) = join_lits unesc mid.
 Proof.
-  exists (mkLabels [(1, LQuoted split_label)] [1]).
-  split; [split; [repeat constructor; simpl; tauto|reflexivity]|].
-  split; [reflexivity|].
-  split; [exists (mkTok TokenOQuote [34] 1 1), [mkTok TokenQuotedLit [97] 1 0; mkTok TokenQuotedLit [36] 1 0; mkTok TokenQuotedLit [98] 1 0], (mkTok TokenCQuote [34] 1 0); auto|].
-  intros unesc. reflexivity.
+  intros Ho Hc Hm. cbn [label_of]. rewrite rev_app_distr. cbn [rev app].
+  rewrite rev_involutive. unfold is. rewrite Ho, Hc. rewrite !Z.eqb_refl.
+  assert (L : 3 <=? Z.of_nat (length (o :: mid ++ [c])) = true).
+  { apply Z.leb_le. cbn [length]. rewrite app_length. cbn [length].
+    destruct mid; [congruence|]. cbn [length]. lia. }
+  rewrite L. reflexivity.
 Qed.
 
-(* ... whereas the labels written by the API (one literal token each) are read
-   back as the literal decoder decodes them *)
+Theorem labels_split_read unesc :
+  unesc [97] = Some [97] -> unesc [36] = Some [36] -> unesc [98] = Some [98] ->
+  labels_current unesc (mkLabels [(1, LQuoted split_label)] [1]) = [[97; 36; 98]].
+Proof.
+  intros H1 H2 H3. unfold labels_current. cbn [l_items l_ch set_list filter mem existsb fst Z.eqb Pos.eqb orb flat_map snd].
+  change split_label with (mkTok TokenOQuote [34] 1 1 :: [mkTok TokenQuotedLit [97] 1 0; mkTok TokenQuotedLit [36] 1 0; mkTok TokenQuotedLit [98] 1 0] ++ [mkTok TokenCQuote [34] 1 0]).
+  rewrite label_of_quoted by (reflexivity || discriminate).
+  cbn [join_lits ty bytes is]. rewrite !Z.eqb_refl, H1, H2, H3. reflexivity.
+Qed.
+
+(* the labels written by the API (one literal token each) are read back as the
+   literal decoder decodes them *)
 Theorem labels_api_read unesc o q c :
   ty o = TokenOQuote -> ty q = TokenQuotedLit -> ty c = TokenCQuote ->
   labels_current unesc (labels_replace [[o; q; c]]) = opt_to_list (unesc (bytes q)).
 Proof.
-  intros Ho Hq Hc. unfold labels_current, labels_replace. simpl.
-  unfold is. rewrite Ho, Hq, Hc. simpl. rewrite app_nil_r. reflexivity.
+  intros Ho Hq Hc. unfold labels_current, labels_replace.
+  cbn [map number_from ids fst l_items l_ch set_list filter mem existsb Z.eqb Pos.eqb orb flat_map snd].
+  change [o; q; c] with (o :: [q] ++ [c]).
+  rewrite label_of_quoted by (assumption || discriminate).
+  cbn [join_lits]. unfold is. rewrite Hq, Z.eqb_refl.
+  destruct (unesc (bytes q)) as [p|]; [|reflexivity]. cbn [opt_to_list app]. rewrite !app_nil_r. reflexivity.
+Qed.
+
+(* ======================================================================== *)
+(* The history theorem: everything at once                                   *)
+(* ======================================================================== *)
+Theorem history_correct unesc ops s :
+  WF s -> Forall safe_op ops ->
+  exists s',
+    run ops s = Ok s' /\ WF s' /\
+    abs s' = spec_run ops (abs s) /\
+    file_tokens s' = aser (spec_run ops (abs s)) /\
+    observe unesc (root s') = Ok (spec_observe unesc (a_root (spec_run ops (abs s)))).
+Proof.
+  intros W So. destruct (run_refines ops s So W) as (s' & H & W' & E).
+  exists s'. split; [exact H|]. split; [exact W'|]. split; [exact E|]. split.
+  - rewrite tokens_are_ser, E. reflexivity.
+  - rewrite (readers_agree unesc s' W'), E. reflexivity.
+Qed.
+
+(* ======================================================================== *)
+(* The executable check TreeSpec.wf_state_b is sound for WF                  *)
+(* ======================================================================== *)
+Lemma nodupb_sound l : nodupb l = true -> NoDup l.
+Proof.
+  induction l as [|x r IH]; simpl; intros H; [constructor|].
+  apply andb_true_iff in H. destruct H as [H1 H2]. constructor; [|apply IH; exact H2].
+  apply mem_false. destruct (mem x r); [discriminate|reflexivity].
+Qed.
+
+Lemma nodup_keysb_sound l : nodup_keysb l = true -> NoDup l.
+Proof.
+  induction l as [|x r IH]; simpl; intros H; [constructor|].
+  apply andb_true_iff in H. destruct H as [H1 H2]. constructor; [|apply IH; exact H2].
+  intros Hin. assert (E : existsb (zlist_eqb x) r = true).
+  { apply existsb_exists. exists x. split; [exact Hin|apply zlist_eqb_eq; reflexivity]. }
+  rewrite E in H1. discriminate.
+Qed.
+
+Lemma split_first_full {A} (p : A -> bool) l a (x : Z * A) b :
+  split_first p l = Some (a, x, b) ->
+  l = a ++ x :: b /\ Forall (fun n => p (snd n) = false) a /\ p (snd x) = true.
+Proof.
+  revert a. induction l as [|y r IH]; simpl; intros a H; [discriminate|].
+  destruct (p (snd y)) eqn:E.
+  - inversion H; subst. auto.
+  - destruct (split_first p r) as [[[a' y'] b']|]; [|discriminate].
+    inversion H; subst. destruct (IH a' eq_refl) as (E1 & F & P).
+    subst r. repeat split; auto.
+Qed.
+
+Lemma attr_wfb_sound a : attr_wfb a = true -> WF_attr a.
+Proof.
+  unfold attr_wfb. intros H.
+  destruct (split_first is_lident (a_ch a)) as [[[pre [iN x]] rest]|] eqn:E1; [|discriminate].
+  destruct x; try discriminate.
+  destruct (split_first is_lexpr rest) as [[[mid [iE y]] post]|] eqn:E2; [|discriminate].
+  destruct y; try discriminate.
+  repeat (apply andb_true_iff in H; destruct H as [H ?]).
+  apply split_first_full in E1. destruct E1 as (E1 & F1 & _).
+  apply split_first_full in E2. destruct E2 as (E2 & F2 & _). subst rest.
+  exists pre, iN, t, mid, iE, ts, post.
+  split; [exact E1|].
+  split; [destruct pre; [discriminate|discriminate]|].
+  split; [destruct post; [discriminate|discriminate]|].
+  split; [exact F1|]. split; [exact F2|].
+  split; [apply nodupb_sound; assumption|].
+  split; [apply Z.eqb_eq; assumption|]. split; [apply Z.eqb_eq; assumption|].
+  split; apply mem_In; assumption.
+Qed.
+
+Lemma labels_wfb_sound l : labels_wfb l = true -> WF_labels l.
+Proof.
+  unfold labels_wfb. intros H. apply andb_true_iff in H. destruct H as [H1 H2].
+  split; [apply nodupb_sound; exact H1|]. apply zlist_eqb_eq in H2. exact H2.
+Qed.
+
+Lemma nil_or_mem_sound h l : nil_or_mem h l = true -> nil_or_in h l.
+Proof.
+  unfold nil_or_mem, nil_or_in. intros H. apply orb_true_iff in H.
+  destruct H as [H|H]; [left; apply Z.eqb_eq; exact H|right; apply mem_In; exact H].
+Qed.
+
+Lemma body_wfb_unfold ch items limbo :
+  body_wfb (mkBody ch items limbo)
+  = is_nil limbo && nodupb (ids ch) && zlist_eqb items (ids (filter is_item ch))
+    && nodup_keysb (keys ch) && forallb (fun n => item_wfb (snd n)) ch.
+Proof. reflexivity. Qed.
+
+Theorem body_wfb_sound : forall n b, (depth_b b < n)%nat -> body_wfb b = true -> WFb b.
+Proof.
+  induction n as [|n IHn]; intros b D H; [lia|].
+  destruct b as [ch items limbo]. rewrite body_wfb_unfold in H.
+  repeat (apply andb_true_iff in H; destruct H as [H ?]).
+  destruct limbo; [|discriminate].
+  apply zlist_eqb_eq in H2. subst items.
+  rewrite forallb_forall in H0.
+  apply wfb_build.
+  - apply nodupb_sound. assumption.
+  - apply nodup_keysb_sound. assumption.
+  - intros i it Hin. specialize (H0 _ Hin). cbn [snd] in H0.
+    destruct it as [ts|a|k]; cbn [item_ok item_wfb] in *; [exact I|apply attr_wfb_sound; exact H0|].
+    pose proof (depth_child ch (ids (filter is_item ch)) [] i k Hin) as D'.
+    destruct k as [pre bid bd post h1 h2 h3 h4 h5 h6 lb]. cbn [k_bd] in D'.
+    cbn [block_wfb] in H0.
+    destruct (split_first is_kident pre) as [[[lead [iT x]] rest]|] eqn:E1; [|discriminate].
+    destruct x as [x|x]; try discriminate. destruct x; try discriminate.
+    destruct rest as [|[iL y] mid]; try discriminate. destruct y as [y|l]; try discriminate.
+    apply andb_true_iff in H0. destruct H0 as [H0 Kbd].
+    apply andb_true_iff in H0. destruct H0 as [H0 K6].
+    apply andb_true_iff in H0. destruct H0 as [H0 K4].
+    apply andb_true_iff in H0. destruct H0 as [H0 K1].
+    apply andb_true_iff in H0. destruct H0 as [H0 Klb].
+    apply andb_true_iff in H0. destruct H0 as [H0 K5].
+    apply andb_true_iff in H0. destruct H0 as [H0 K3].
+    apply andb_true_iff in H0. destruct H0 as [H0 K2].
+    apply andb_true_iff in H0. destruct H0 as [H0 Kl].
+    apply andb_true_iff in H0. destruct H0 as [Klead Knd].
+    apply split_first_full in E1. destruct E1 as (E1 & F1 & _). subst pre.
+    apply Z.eqb_eq in K2, K3, K5. subst h2 h3 h5.
+    destruct lb; [|discriminate].
+    constructor.
+    + destruct lead; [discriminate|discriminate].
+    + exact F1.
+    + apply nodupb_sound. assumption.
+    + apply labels_wfb_sound. assumption.
+    + apply mem_In. assumption.
+    + apply nil_or_mem_sound. assumption.
+    + apply nil_or_mem_sound. assumption.
+    + apply IHn; [lia|assumption].
+Qed.
+
+Theorem wf_state_b_sound s : wf_state_b s = true -> WF s.
+Proof.
+  unfold wf_state_b. intros H. apply andb_true_iff in H. destruct H as [H1 H2]. split.
+  - apply (body_wfb_sound (S (depth_b (root s)))); [lia|exact H1].
+  - rewrite forallb_forall in H2. apply Forall_forall. intros k Hk. specialize (H2 k Hk).
+    assert (W : WFb (mkBody [(1, IBlock k)] [1] [])).
+    { apply (body_wfb_sound (S (depth_b (mkBody [(1, IBlock k)] [1] [])))); [lia|].
+      rewrite body_wfb_unfold. cbn. rewrite H2. reflexivity. }
+    apply wfb_inv in W. destruct W as (_ & _ & _ & _ & C).
+    exact (C 1 (IBlock k) (or_introl eq_refl)).
 Qed.
